@@ -93,3 +93,63 @@ class SingleNode:
             for suffix in ("", "-journal"):
                 if os.path.exists(self.path + suffix):
                     os.remove(self.path + suffix)
+
+
+class _StubQueue:
+    def __init__(self):
+        self.items = []
+
+    def put(self, x):
+        self.items.append(x)
+
+
+def mine_with_real_miner(sn, world, rng, max_tries=20000):
+    """lets the node find ONE block of its own through the real miner front end (MinerWatcher's two handlers, driven as a
+    worker process would drive them); the reference world learns the block.  Returns the real block or None."""
+    import skepticoin.mining as mining
+    import skepticoin.consensus as cons
+    import skepticoin.wallet as wm
+    from decimal import Decimal
+    from datetime import datetime
+    from skepticoin.datatypes import Block, BlockHeader
+    from skv import gen, bridge
+    mining.time = sn.net.clock
+    mk = gen.make_keys(3, tag=b"nodekit-miner")
+    wallet = wm.Wallet({pk: sk for sk, pk in mk}, [pk for _s, pk in mk], {})
+
+    class Thread:
+        pass
+    th = Thread()
+    th.local_peer = sn.lp
+    mw = mining.MinerWatcher.__new__(mining.MinerWatcher)
+
+    class Args:
+        quiet = True
+    mw.args = Args()
+    mw.recv_queue, mw.send_queues, mw.processes, mw.hash_stats = _StubQueue(), [_StubQueue()], [], {}
+    mw.balance = mw.start_balance = Decimal(0)
+    mw.start_time = datetime.fromtimestamp(sn.net.clock.t - 100)
+    mw.wallet, mw.coinstate, mw.network_thread, mw.mining_args = wallet, sn.cm.coinstate, th, {}
+    mw.public_key = wallet.get_annotated_public_key("reserved for potentially mined block")
+    mw.log_silencer = []
+    head_before = sn.cm.coinstate.current_chain_hash
+    sn.net.clock.t = max(sn.net.clock.t, sn.cm.coinstate.head().timestamp + 1)
+    start = rng.randrange(1 << 30)
+    for k in range(max_tries):
+        mw.send_queues[0].items.clear()
+        quiet(mw.handle_request_scrypt_input_message, 0, start + k)
+        _kind, (summary, height) = mw.send_queues[0].items[-1]
+        sh = cons.construct_summary_hash(summary, height)
+        s2, h2, txs = mw.mining_args[0]
+        ev = cons.construct_pow_evidence_after_scrypt(sh, mw.coinstate, s2, h2, txs)
+        cand = Block(BlockHeader(s2, ev), txs)
+        quiet(mw.handle_scrypt_output_message, 0, sh)
+        if cand.hash() < cand.target:
+            sn.settle()
+            if sn.cm.coinstate.current_chain_hash == head_before:
+                return None
+            rb = bridge.real_to_rblock(cand)
+            world.cs = world.cs.add_block_no_validation(cand)
+            world.accept(rb, cand, cs=world.cs)
+            return cand
+    return None
